@@ -60,7 +60,7 @@ Section Struct.
   Fixpoint groups_layout (data : list N) (off : N) (ord : N) (gs : list rg_meta) : Prop :=
     match gs with
     | [] => data = []
-    | g :: r => exists d rest, data = d ++ rest /\ rg_file_offset g = off /\ rg_ordinal g = ord /\
+    | g :: r => exists d rest, data = d ++ rest /\ rg_file_offset g = off /\ rg_ordinal g = ordinal_of ord /\
                                rg_total_compressed g = len d /\
                                rg_total_compressed g = sumN (map cm_total_compressed (rg_chunks g)) /\
                                rg_total_byte_size g = sumN (map cm_total_uncompressed (rg_chunks g)) /\
@@ -176,7 +176,7 @@ Section Struct.
 
   Lemma groups_layout_snoc : forall gs data off ord g d,
     groups_layout data off ord gs ->
-    rg_file_offset g = off + len data -> rg_ordinal g = ord + len gs -> rg_total_compressed g = len d ->
+    rg_file_offset g = off + len data -> rg_ordinal g = ordinal_of (ord + len gs) -> rg_total_compressed g = len d ->
     rg_total_compressed g = sumN (map cm_total_compressed (rg_chunks g)) ->
     rg_total_byte_size g = sumN (map cm_total_uncompressed (rg_chunks g)) ->
     chunks_layout d (off + len data) (rg_chunks g) ->
@@ -190,7 +190,7 @@ Section Struct.
       repeat split; try assumption; try reflexivity.
       apply IH; try assumption.
       + rewrite Ho, len_app. lia.
-      + rewrite Hord. unfold len. cbn [length]. lia.
+      + rewrite Hord. f_equal. unfold len. cbn [length]. lia.
       + rewrite len_app in Hl. replace (off + len d0 + len rest) with (off + (len d0 + len rest)) by lia. exact Hl.
   Qed.
 
@@ -223,6 +223,8 @@ Section Struct.
   Lemma write_batch_s w col b w' st : SInv w -> fw_write_batch compress header w col b = Ok (w', st) -> SInv w'.
   Proof.
     intros I. unfold fw_write_batch. destruct (Nat.leb _ _); [intros E; inversion E; subst; exact I|].
+    destruct (match f_cur w with None => MAX_ROW_GROUPS <=? len (f_groups w) | Some _ => false end);
+      [intros E; inversion E; subst; apply (ensure_header_s w I)|].
     destruct (ensure_header_s w I) as [[C1 H1] Hh]. set (w0 := ensure_header w) in *. rewrite Hh in H1.
     assert (I1 : SInv (ensure_row_group w0)).
     { unfold ensure_row_group. destruct (f_cur w0) eqn:Ec; [split; [exact C1|rewrite Hh; exact H1]|].
@@ -292,7 +294,7 @@ Section Struct.
   Theorem writer_output_valid sch opts ops sts w :
     run_writer compress header footer sch opts ops = Ok (sts, w, true) ->
     structurally_valid (f_out w) (metadata_of w).
-  Proof. unfold run_writer. apply run_ops_s, sinv_init. Qed.
+  Proof. unfold run_writer. destruct (schema_fits sch); [|discriminate]. apply run_ops_s, sinv_init. Qed.
 
   Theorem writer_deterministic sch opts ops r1 r2 :
     run_writer compress header footer sch opts ops = r1 ->
